@@ -48,7 +48,9 @@ def run(ctx: Ctx):
 
     # ---- R08.a duplicate detection ---------------------------------------------------------
     ctx.rule("R08.a", "duplicate detection sees every definition: the transformer rejects a redefinition before atoms are merged in sets; gather_atoms records every kind, tagged; the predicate is 'more than one distinct value'", floor=10)
-    tf = sm.func("transformer.py", "TreeToODE.ode")
+    from . import util as _u8
+
+    tf = _u8.nf(ctx, "transformer.py", "TreeToODE.ode")  # private helpers expanded
     loops = [n for n in tf.node.body if isinstance(n, ast.For)]
     ctx.require(loops, "TreeToODE.ode: loop over the parsed lines not found")
     outer = loops[0]
@@ -149,28 +151,93 @@ def run(ctx: Ctx):
     ic = sm.func("ode_component.py", "BaseComponent.is_complete")
     rets = [norm(n.value) for n in ast.walk(ic.node) if isinstance(n, ast.Return)]
     ctx.check(rets in (["self.states_with_derivatives == self.states"], ["self.states == self.states_with_derivatives"]), "R08.b", ic.key("definition"), "complete iff states with derivatives == states", f"is_complete returns {rets}", ic.where())
+    from sa import av as _avb
+
+    from . import util as _ub
+
     swd = sm.func("ode_component.py", "BaseComponent.states_with_derivatives")
-    loops = [n for n in ast.walk(swd.node) if isinstance(n, ast.For)]
-    ok = bool(loops) and norm(loops[0].iter) == "self.state_derivatives" and any(isinstance(c, ast.Call) and norm(c).endswith(f".add({loops[0].target.id}.state)") for c in ast.walk(loops[0])) and not any(isinstance(n, (ast.If, ast.Continue)) for n in ast.walk(loops[0]))
-    ctx.check(ok, "R08.b", swd.key("definition"), "the states of all state derivatives", "states_with_derivatives does not collect the state of every state derivative", swd.where())
+    sv_ = _ub.value_of(ctx, swd)
+    if _avb.has_unk(sv_):
+        ctx.undecided("R08.b", swd.key("definition"), "what states_with_derivatives collects is not understood", swd.where())
+    else:
+        inner = sv_
+        while inner[0] == "call" and inner[1] in ("frozenset", "set") and len(inner[2]) == 1:
+            inner = _avb._unwrap_seq(inner[2][0])
+        ok = inner[0] == "comp" and inner[2] == ("sym", "self.state_derivatives") and not inner[4] and inner[3] == (("attr", ("bv", inner[1]), "state"),)
+        ctx.check(ok, "R08.b", swd.key("definition"), "the states of all state derivatives", f"states_with_derivatives collects {_avb.show(sv_)[:100]}, not the state of every state derivative", swd.where())
     ha = sm.func("ode_component.py", "Component._handle_assignments")
-    ifs = [n for n in ast.walk(ha.node) if isinstance(n, ast.If) and "STATE_DERIV_EXPR.match" in norm(n.test)]
-    ok = False
-    if ifs:
-        t = ifs[0].test
-        ok = isinstance(t, ast.NamedExpr) and norm(t.value) == "STATE_DERIV_EXPR.match(assignment.name)"
-        fs = [c for c in ast.walk(ifs[0]) if isinstance(c, ast.Call) and (dotted(c.func) or "") == "self.find_state"]
-        ok = ok and bool(fs) and all(s in ifs[0].body or any(s is x for b in ifs[0].body for x in ast.walk(b)) for s in fs)
-    ctx.check(ok, "R08.b", ha.key("derivative-branch"), "every assignment named d<x>_dt is resolved with find_state", f"_handle_assignments: the derivative test is `{norm(ifs[0].test) if ifs else None}`; an assignment named d<x>_dt can bypass find_state and silently become an intermediate", ha.where(ifs[0]) if ifs else ha.where())
+    _hv, henv = _ub.AV(ctx).returned(ha)
+    stores = {}
+    for fn_, node_, val_ in _ub.AV(ctx).call_log:
+        if fn_ is ha and val_[0] == "call" and val_[1] == "object.__setattr__" and len(val_[2]) == 3 and val_[2][1][0] == "c":
+            stores[val_[2][1][1]] = val_[2][2]
+
+    def flat_items(v):
+        """[(value, [conditions])] of the per-assignment items of a set built in the loop over self.assignments"""
+        v = _avb._unwrap_seq(v)
+        while v[0] == "call" and v[1] in ("frozenset", "set") and len(v[2]) == 1:
+            v = _avb._unwrap_seq(v[2][0])
+        if v[0] != "comp" or v[2] != ("sym", "self.assignments"):
+            return None, None
+        out = []
+        for it in v[3]:
+            conds = list(v[4])
+            while it[0] == "when":
+                conds.append(it[1])
+                it = it[2]
+            out.append((it, conds))
+        return ("bv", v[1]), out
+
+    sdv, imv = stores.get("state_derivatives"), stores.get("intermediates")
+    key = ha.key("derivative-branch")
+    if sdv is None or imv is None or _avb.has_unk(sdv) or _avb.has_unk(imv):
+        ctx.undecided("R08.b", key, "how _handle_assignments classifies the assignments is not understood", ha.where())
+    else:
+        bv1, sd_items = flat_items(sdv)
+        bv2, im_items = flat_items(imv)
+        if sd_items is None or im_items is None:
+            ctx.undecided("R08.b", key, "the sets stored by _handle_assignments are not built per assignment", ha.where())
+        else:
+            def is_match(c, bv):
+                return c[0] == "mcall" and c[2] in ("match", "fullmatch") and c[3] == (("attr", bv, "name"),) and c[1][0] == "call" and c[1][1] == "re.compile"
+
+            conv = [(x, c) for x, c in sd_items if x[0] == "mcall" and x[2] == "to_state_derivative"]
+            raw_im = [(x, c) for x, c in im_items if x[0] == "mcall" and x[2] == "to_intermediate"]
+            ok = bool(conv) and bool(raw_im)
+            why = "no to_state_derivative / to_intermediate conversion found"
+            if not conv and not raw_im:
+                ctx.undecided("R08.b", key, "the conversion of plain assignments is not done item by item in the loop (the classification is delegated)", ha.where())
+                conv = raw_im = None
+            for x, c in conv or []:
+                ms = [k for k in c if is_match(k, bv1)]
+                arg = x[3][0] if x[3] else None
+                fs_ok = arg is not None and arg[0] == "mcall" and arg[1] == ("sym", "self") and arg[2] == "find_state" and ms and (dict(arg[4]).get("state_name") or (arg[3][0] if arg[3] else None)) == ("mcall", ms[0], "group", (_avb.C("state"),), ())
+                if not fs_ok:
+                    ok, why = False, f"a derivative is built as {_avb.show(x)[:120]}, not through self.find_state(<state group of the d<x>_dt match>)"
+            for x, c in raw_im or []:
+                nm = [k for k in c if k[0] == "not" and is_match(k[1], bv2)]
+                if not nm:
+                    ok, why = False, f"an assignment becomes an intermediate under {[_avb.show(k)[:60] for k in c]} without the test that its name is not d<x>_dt"
+            if conv is not None:
+                ctx.check(ok, "R08.b", key, "every assignment named d<x>_dt is resolved with find_state", f"_handle_assignments: {why}; an assignment named d<x>_dt can bypass find_state and silently become an intermediate", ha.where())
     rx = None
     for st in sm.module("ode_component.py").body:
         if isinstance(st, ast.Assign) and norm(st.targets[0]) == "STATE_DERIV_EXPR" and isinstance(st.value, ast.Call) and st.value.args:
             rx = const_str(st.value.args[0])
     ctx.check(rx == r"^d(?P<state>\w+)_dt$", "R08.b", "src/gotranx/ode_component.py::STATE_DERIV_EXPR", "^d(?P<state>\\w+)_dt$", f"STATE_DERIV_EXPR is {rx!r}", "src/gotranx/ode_component.py")
     fs = sm.func("ode_component.py", "BaseComponent.find_state")
-    loops = [n for n in ast.walk(fs.node) if isinstance(n, ast.For)]
-    ok = bool(loops) and norm(loops[0].iter) == "self.states" and any(isinstance(s, ast.Raise) for s in loops[0].orelse) and any(isinstance(n, ast.If) and norm(n.test) == f"{loops[0].target.id}.name == {fs.params[1]}" for n in loops[0].body)
-    ctx.check(ok, "R08.b", fs.key("raises"), "find_state raises StateNotFoundInComponent when no state matches", "find_state no longer raises when the state is not in the component", fs.where())
+    fv_ = _ub.value_of(ctx, fs)
+    if _avb.has_unk(fv_):
+        ctx.undecided("R08.b", fs.key("raises"), "find_state is not understood", fs.where())
+    else:
+        from .c03 import _branches as _brs
+
+        leaves = _brs(fv_)
+        raising = [c for c, x in leaves if x[0] == "raise"]
+        found = [(c, x) for c, x in leaves if x[0] != "raise"]
+        want_c = ("call", "any", (("comp", 1, ("sym", "self.states"), (("cmp", "==", ("attr", ("bv", 1), "name"), ("sym", fs.params[1])),), ()),), ())
+        ok = len(raising) == 1 and len(found) == 1 and raising[0] == (_avb.mk_not(want_c),) and found[0][1] not in (_avb.NONE,)
+        ctx.check(ok, "R08.b", fs.key("raises"), "find_state raises StateNotFoundInComponent when no state matches", f"find_state does not raise exactly when no state of the component has the requested name ({_avb.show(fv_)[:140]})", fs.where())
 
     # ---- R08.c error discipline ---------------------------------------------------------------------
     ctx.rule("R08.c", "every except clause of the package is in the frozen table (one reason each); undefined symbols become MissingSymbolError; nothing catches CycleError / GotranxError on the load->generate path", floor=16)
